@@ -1,5 +1,5 @@
 """C04 — parsing is total; index/err discipline; the grammar as outcome tables of the three field parsers and the driver."""
-from ..rules import parser, data, normal, casts
+from ..rules import parser, data, normal, casts, summary
 
 EXPL = ("Decides: (1) SA-PANIC totality: every panic edge in the call-graph closure of the six generic parse entry points "
         "(from_bytes, from_bytes_with_last_index, from_str for plain and dual types) in release-like configurations is discharged "
@@ -39,5 +39,6 @@ def run(ctx):
         ctx.guard("C04", "outcomes", lambda: parser.driver_outcomes(ctx, prog))
         ctx.guard("C04", "runlimit", lambda: normal.run_limit_agreement(ctx, prog))
         ctx.guard("C04", "tables", lambda: data.base64_tables(ctx, prog))
+        ctx.guard("C04", "summaries", lambda: summary.check(ctx, prog, 'parser_state::|ParseErrorEither|::from_bytes|::from_str', floor=4))
         ctx.guard("C04", "casts", lambda: casts.census(ctx, prog, scope='hash::algorithms::parse_|::from_bytes|::from_str|hash_dual::algorithms::(compress_block_hash_with_rle|update_rle_block)', floor=2))
     return ctx.finish(EXPL, ["overflow checks of debug builds are not part of the verdict (release-like configurations decide)", "core slice/iterator APIs panic only as documented", "residue entries are reviewed by hand; each states its reason"])
